@@ -2,12 +2,12 @@
 EXTENDS Publish, Json
 P == << "alpn=h2", "port=8443" >>
 R(nm, pg, ps) == [name |-> nm, page |-> pg, params |-> ps]
-ParamLists == { <<>>, <<"alpn=h2">>, <<"alpn=h2", "ech=C1x">>, <<"no-default-alpn", "alpn=h3", "ech=old">>, <<"alpn=h3", "no-default-alpn">>, <<"alpn=h2", "ech=old">>, <<"ech=old", "alpn=h2">>, <<"ech=C1">>, <<"alpn=h2", "ech=C1", "port=8443">> }
+ParamLists == { <<>>, <<"alpn=h2">>, <<"key65400=a  b", "ech=old", "alpn=h2">>, <<"alpn=h2", "ech=C1x">>, <<"no-default-alpn", "alpn=h3", "ech=old">>, <<"alpn=h3", "no-default-alpn">>, <<"alpn=h2", "ech=old">>, <<"ech=old", "alpn=h2">>, <<"ech=C1">>, <<"alpn=h2", "ech=C1", "port=8443">> }
 ParamLists2 == { <<>>, <<"alpn=h2">>, <<"ech=old", "port=8443">> }
 RecSetsAll == { << R("a", 1, pa), R("b", 3, pb), R("c", 2, <<"alpn=h3", "ech=old", "no-default-alpn">>) >> : pa \in ParamLists, pb \in ParamLists2 }
               \cup { << R("a", 1, pa) >> : pa \in ParamLists } \cup { <<>> }
 T(z, n) == [zone |-> z, name |-> n]
-TLAll == { <<T("z1", "a")>>, <<T("z1", "a"), T("z1", "b")>>, <<T("z1", "m"), T("z1", "b"), T("z1", "a")>>, <<T("z1", "a"), T("z1", "a")>>,
+TLAll == { <<T("z1", "a")>>, <<T("z1", "a"), T("z3", "a")>>, <<T("z3", "b"), T("z1", "b"), T("z3", "a")>>, <<T("z1", "a"), T("z1", "b")>>, <<T("z1", "m"), T("z1", "b"), T("z1", "a")>>, <<T("z1", "a"), T("z1", "a")>>,
            <<T("z2", "x"), T("z1", "a")>>, <<T("z1", "b"), T("z2", "x"), T("z1", "b")>>, <<>> }
 CfgAll == {"C1", "C2"}
 FailAll == { NoFail, [kind |-> "zone", n |-> 1], [kind |-> "page", n |-> 1], [kind |-> "page", n |-> 2], [kind |-> "page", n |-> 3],
@@ -15,9 +15,10 @@ FailAll == { NoFail, [kind |-> "zone", n |-> 1], [kind |-> "page", n |-> 1], [ki
 RecSetsSmall == { << R("a", 1, <<"alpn=h2", "ech=old">>), R("b", 3, <<"ech=old", "port=8443">>), R("c", 2, <<"alpn=h3", "ech=old">>) >>,
                   << R("a", 1, <<"ech=C1">>), R("b", 3, <<"alpn=h2">>), R("c", 2, <<"alpn=h3", "ech=old">>) >>,
                   << R("a", 1, <<>>) >>,
+                  << R("a", 1, <<"key65400=a  b", "ech=old", "alpn=h2">>), R("b", 3, <<"alpn=h2">>), R("c", 2, <<"alpn=h3", "ech=old">>) >>,
                   \* a record without any parameter on the last page (same position as a parameter-rich one on the page before)
                   << R("a", 1, <<"alpn=h2">>), R("b", 3, <<>>), R("c", 2, <<"alpn=h3", "ech=old", "no-default-alpn">>) >> }
-TLSmall == { <<T("z1", "a"), T("z1", "b")>>, <<T("z1", "a"), T("z1", "a")>>, <<T("z2", "x"), T("z1", "b"), T("z1", "a")>>, <<T("z1", "m"), T("z1", "a")>> }
+TLSmall == { <<T("z1", "a"), T("z3", "a"), T("z1", "b")>>, <<T("z3", "b"), T("z1", "b")>>, <<T("z1", "a"), T("z1", "b")>>, <<T("z1", "a"), T("z1", "a")>>, <<T("z2", "x"), T("z1", "b"), T("z1", "a")>>, <<T("z1", "m"), T("z1", "a")>> }
 FailSmall == { NoFail, [kind |-> "page", n |-> 2], [kind |-> "patch", n |-> 1], [kind |-> "zone", n |-> 1] }
 Slim(c) == [targets |-> c.targets, cfg |-> c.cfg, fail |-> c.fail, results |-> c.results, patches |-> c.patches, after |-> c.after]
 Emit == ncalls = MaxCalls => PrintT(<<"CASE", ToJson([init |-> calls[1].before, calls |-> [j \in DOMAIN calls |-> Slim(calls[j])]])>>)
